@@ -81,7 +81,7 @@ def toks_paths(toks):
 
 
 BAD_POINTERS = [b"a", b"a/b", b" /a", b"/nonexistent", b"/a/nonexistent", b"/0/x", b"/01", b"/+1", b"/ 1", b"/1e0", b"/-", b"/-1", b"/999999999999999999999999999999", b"/1x", b"/0x0",
-                b"//", b"/a/", b"/0/", b"/00", b"/1.0", b"/\xef\xbc\x91", b"0", b"#/a", b"/a//b", b"/~", b"/~2", b"/18446744073709551616", b"/4294967296"]
+                b"//", b"/a/", b"/0/", b"/00", b"/1.0", b"/\xef\xbc\x91", b"0", b"#/a", b"/a//b", b"/~", b"/~2", b"/18446744073709551616", b"/4294967296", b"/:", b"/1:", b"/:1", b"/0:", b"/1/", b"/2305843009213693953", b"/9223372036854775808"]
 
 
 def pointers_for(rng, toks):
